@@ -86,7 +86,6 @@ Definition validate_establishes_invariant pi VS F ES : Prop :=
     ExeA.ArgModel.get_operation (exe_of_syn d) opname = ExeA.ArgModel.GOp o ->
     let D := ExeA.ArgData.doc_of (exe_of_syn d) o vv in
     let E := ExeA.ArgArgs.env_of_vars vv in
-    ExeA.ArgHyps.dirs_evaluable D E = true ->
     ExeA.ArgSpec.s_root_type ES (ExeA.ArgData.op_kind D) = Some rt ->
     exists Q, Q rt (ExeA.ArgData.op_sels D) /\ fields_defined_on ES D E Q /\ merge_sound ES D E Q.
 
@@ -94,12 +93,12 @@ Theorem doc_ok_from_invariant pi VS F ES :
   Vld.ProofsCommon.order_ok pi -> schemas_agree VS ES = true -> cost_schema_accepted ES = true ->
   validate_establishes_invariant pi VS F ES -> validate_establishes_doc_ok pi VS F ES.
 Proof.
-  intros Hpi Ha Hs Hinv bs d opname o vv Hacc Hg D E Hev. subst D E.
+  intros Hpi Ha Hs Hinv bs d opname o vv Hacc Hg D E. subst D E.
   destruct (accepted_root_type pi VS F ES bs d opname o vv Hpi Ha Hacc Hg) as (rt & Hr).
-  destruct (Hinv bs d opname o vv rt Hacc Hg Hev Hr) as (Q & HQ & Hdef & Hmerge).
-  apply (ExeA.ArgAcyclicProofs.doc_ok_acyclic ES _ _ _ Q rt).
+  destruct (Hinv bs d opname o vv rt Hacc Hg Hr) as (Q & HQ & Hdef & Hmerge).
+  apply (ExeA.ArgAcyclicProofs.doc_ok_nodirs_acyclic ES _ _ _ Q rt).
   - exact (accepted_acyclic pi VS F bs d o vv Hpi Hacc).
-  - exact (accepted_conds_ok pi VS F ES bs d opname o vv _ Hpi Ha Hacc Hg Hev).
+  - exact (accepted_conds_gen pi VS F ES bs d opname o vv _ Hpi Ha Hacc Hg).
   - exact Hr.
   - exact (invariant_step ES _ _ Q Hs Hdef Hmerge).
   - exact HQ.
@@ -109,10 +108,9 @@ Theorem pipeline_response_if_invariant pi VS F ES bs opname raw W :
   Vld.ProofsCommon.order_ok pi ->
   schema_accepted ES = true -> cost_schema_accepted ES = true -> schemas_agree VS ES = true ->
   validate_establishes_invariant pi VS F ES -> text_positions_small bs ->
-  request_evaluable pi VS F ES bs opname raw ->
   is_response (pipeline_order pi VS F ES bs opname raw W) = true.
 Proof.
-  intros Hpi Hn Hs Ha Hinv Hp Hev.
+  intros Hpi Hn Hs Ha Hinv Hp.
   apply (pipeline_response_if_obligations pi Hpi VS F ES bs opname raw W Hn); try assumption.
   apply doc_ok_from_invariant; assumption.
 Qed.
@@ -152,9 +150,9 @@ End Converse.
 
 Theorem invariant_from_doc_ok ES D E n rt :
   ExeA.ArgSpec.s_root_type ES (ExeA.ArgData.op_kind D) = Some rt ->
-  ExeA.ArgSpec.doc_ok ES D E (ExeA.ArgModel.default_fuel D) n = true ->
+  ExeA.ArgSpec.doc_ok_nodirs ES D E (ExeA.ArgModel.default_fuel D) n = true ->
   exists Q, Q rt (ExeA.ArgData.op_sels D) /\ fields_defined_on ES D E Q /\ merge_sound ES D E Q.
 Proof.
-  intros Hr Hd. unfold ExeA.ArgSpec.doc_ok in Hd. apply andb_true_iff in Hd as [_ Hd]. rewrite Hr in Hd.
+  intros Hr Hd. unfold ExeA.ArgSpec.doc_ok_nodirs in Hd. apply andb_true_iff in Hd as [_ Hd]. rewrite Hr in Hd.
   exists (Q_sels_ok ES D E). split; [exists n; exact Hd|]. split; [apply sels_ok_fields_defined|apply sels_ok_merge_sound].
 Qed.
